@@ -9,6 +9,7 @@
      by the harness: known_findings.json D1f/D1fa), so the unconditional statement is false of the code and is not claimed. *)
 From Coq Require Import List Arith.
 From DbftV Require Import Agreement Gates Replay D1.
+Local Open Scope nat_scope.
 
 Theorem agreement_from_certificates (node bhash : Type) (V byz : nat -> list nat) (honest_key : nat -> Prop)
   (accepts : node -> nat -> bhash -> Prop) (signed : nat -> nat -> bhash -> Prop) :
